@@ -481,6 +481,13 @@ def conc_sessions(ctx, n=None, only=None):
             pulled = {int(k2): bytes.fromhex(v) for k2, v in only.get("pulled", {}).items()}
         fs = {("/r%d" % i).encode(): pulled[i] for i in range(nw)}
         stat = {("/r%d" % i).encode(): (33188 + i, len(pulled[i]), 1000 + i) for i in range(nw)}
+        # C10: some of the pulled files do not exist on the device: it answers RECV with a sync FAIL, which must surface as AdbCommandFailureException
+        # whichever reader took the FAIL off the transport
+        failing = (only or {}).get("failing")
+        if failing is None:
+            failing = [i for i in range(nw) if kinds[i] == "pull" and ctx.prop == "C10" and rng.random() < 0.6]
+        for i in failing:
+            fs[("/r%d" % i).encode()] = ("fail", b"No such file %d" % i)
         clock = transports.Clock(1 << 40)
         link = transports.Link(clock, [dict(sim=dict(maxdata=4096, shell=dict(outs), fs=fs, stat=stat, burst=bool((only or {}).get("burst", rng.random() < 0.3)),
                                                    zero_local=bool((only or {}).get("zero_local", rng.random() < 0.2))), dt=1)])
@@ -623,7 +630,7 @@ def conc_sessions(ctx, n=None, only=None):
         sim = link.used[0].sim
         rep.evaluations += 1
         rep.count("conc_sessions_mode", mode)
-        ser = dict(kind="conc-sessions", mode=mode, workers=nw, start=start, lines=bool(lines), burst=bool(sim.cfg.get("burst")), zero_local=bool(sim.cfg.get("zero_local")),
+        ser = dict(kind="conc-sessions", mode=mode, workers=nw, start=start, lines=bool(lines), burst=bool(sim.cfg.get("burst")), zero_local=bool(sim.cfg.get("zero_local")), failing=list(failing),
                    outs=[[a.hex(), [c.hex() for c in cs]] for a, cs in sorted(outs.items())], order=sched_order, kinds=kinds,
                    pushed={str(k2): v.hex() for k2, v in pushed.items()}, pulled={str(k2): v.hex() for k2, v in pulled.items()})
         rep.signatures.add(("concsess", mode, nw, tuple(sched_order[:40])))
@@ -640,6 +647,10 @@ def conc_sessions(ctx, n=None, only=None):
                 r = results[i]
                 if r is None:
                     fails.append(("incomplete", "worker %d never finished" % i))
+                    continue
+                if i in failing:
+                    if r != ("err", "AdbCommandFailureException") and not lost:
+                        fails.append(("fail-not-reported", "worker %d pulled a file the device refused with a sync FAIL; the call ended with %r instead of AdbCommandFailureException" % (i, r)))
                     continue
                 if r[0] == "ok":
                     if kinds[i] == "shell":
